@@ -1,7 +1,7 @@
 (* C10/Properties.v — property theorems only. Each is closed by a lemma of C10/Proofs.v.
    H is an arbitrary digest function (algorithm -> data -> digest); injectivity is assumed only where stated. *)
 From Coq Require Import String.
-From Relic Require Import Base.Prelude Generated.C10_gen C10.ChainIR C10.Model C10.Proofs C10.Chain C10.ChainProofs.
+From Relic Require Import Base.Prelude Generated.C10_gen C10.ChainIR C10.Model C10.Proofs C10.Chain C10.ChainProofs C10.Timing C10.TimingProofs.
 
 (* ---------------------------------------------------------------- signing side, RFC 3161 *)
 
@@ -206,6 +206,108 @@ Proof. exact C10.ChainProofs.timeblind_memo_refuted. Qed.
 Example timeblind_memo_is_flagged : stateless memo7_timeblind = false.
 Proof. reflexivity. Qed.
 
+(* ---------------------------------------------------------------- TIME: hanging, stalling, dripping, torn and slow authorities
+   Authorities are timed scripts (C10/Timing.v); the client's limits are what tsclient.New / tsClient.do attach, read from
+   the source as functions of timestamp.timeout = ct seconds (limits_of ct).  All times in nanoseconds. *)
+
+(* 18. For EVERY configured timestamp.timeout (also unset = 0, and negative) the client is under a positive OVERALL limit,
+       i.e. one that also covers reading the reply body (http.Client.Timeout or a per-attempt context deadline) — not
+       merely connect / handshake / header timeouts.  A positive value means that many seconds, anything else 60 s. *)
+Theorem timeout_covers_whole_exchange : forall ct, 0 < l_total (limits_of ct).
+Proof. exact C10.TimingProofs.limit_positive. Qed.
+Theorem timeout_is_the_configured_seconds : forall ct, 0 < ct -> l_total (limits_of ct) = 1000000000 * ct.
+Proof. exact C10.TimingProofs.limit_is_configured. Qed.
+Theorem default_timeout_when_unset : forall ct, ct <= 0 -> l_total (limits_of ct) = 60 * 1000000000.
+Proof. exact C10.TimingProofs.limit_default. Qed.
+
+(* 19. Every attempt ends within the timeout: whatever the authority does (any script), with or without a caller deadline *)
+Theorem attempt_ends_within_timeout : forall ct ctx a now,
+  exists f ph t, attempt (limits_of ct) ctx a now = Done f ph t /\ now <= t <= now + l_total (limits_of ct).
+Proof. exact C10.TimingProofs.src_attempt_ends_within_timeout. Qed.
+
+(* 20. An exchange succeeds exactly when the authority's complete reply fits the configured limits (clock-and-deadline
+       walk of the client = the specification over durations); any limits, no caller deadline. *)
+Theorem exchange_succeeds_iff_in_time : forall l a now,
+  fok (attempt l None a now) = spec_in_time l (a_tls a) (a_script a).
+Proof. exact C10.TimingProofs.attempt_spec. Qed.
+
+(* 21. The call always returns; the authorities are asked in configured order, the first at once, each next one no later
+       than one timeout after the previous one, and the call returns no later than one timeout after the last. *)
+Theorem timed_client_returns : forall H ct ctx q al t0,
+  exists r t hits, tclient H (limits_of ct) ctx q al t0 = (TRet r t, hits) /\
+                   timeline (l_total (limits_of ct)) 0 t0 hits t /\ (length hits <= length al)%nat.
+Proof. exact C10.TimingProofs.src_timed_client_returns. Qed.
+
+(* 22. Ordered failover = specification, for every list of authorities and every behaviour: success iff some authority
+       answered in time with a token that passes the checks, and then it is the first such in order and nobody after it
+       was asked; failure only after ALL were asked. *)
+Theorem timed_failover_spec : forall H ct q al t0,
+  q_legacy q = false -> al <> [] ->
+  match spec_timed (spec_good H (limits_of ct) q) al 0 with
+  | (Some s, h) => exists t hits, tclient H (limits_of ct) None q al t0 = (TRet (Ok s) t, hits) /\ map fst hits = h
+  | (None, h) => exists e t hits, tclient H (limits_of ct) None q al t0 = (TRet (Err e) t, hits) /\ map fst hits = h /\
+                                  h = upto 0 (length al)
+  end.
+Proof. exact C10.TimingProofs.src_timed_failover_spec. Qed.
+
+(* 23. No behaviour of earlier authorities can prevent a later good one from being asked and used — and it is reached
+       within one timeout per earlier authority. *)
+Theorem no_behaviour_blocks_later : forall H ct q bad g rest t0,
+  q_legacy q = false ->
+  (forall a, In a bad -> spec_good H (limits_of ct) q a = false) -> spec_good H (limits_of ct) q g = true ->
+  exists t hits, tclient H (limits_of ct) None q (bad ++ g :: rest) t0 = (TRet (Ok (r_stamp (a_reply g))) t, hits) /\
+                 map fst hits = upto 0 (S (length bad)) /\
+                 t0 <= t <= t0 + Z.of_nat (S (length bad)) * l_total (limits_of ct).
+Proof. exact C10.TimingProofs.src_no_behaviour_blocks_later. Qed.
+
+(* 24. If no authority gives a good answer in time the signing FAILS — it neither succeeds, nor hangs, nor panics — under
+       any caller deadline, after at most one timeout per configured authority. *)
+Theorem timed_all_fail_is_error : forall H ct ctx q al t0,
+  q_legacy q = false -> (forall a, In a al -> spec_good H (limits_of ct) q a = false) ->
+  exists e t hits, tclient H (limits_of ct) ctx q al t0 = (TRet (Err e) t, hits) /\
+                   t0 <= t <= t0 + zlen al * l_total (limits_of ct).
+Proof. exact C10.TimingProofs.src_timed_all_fail_is_error. Qed.
+
+(* 25. Success under ANY caller deadline and any limits: the token comes from an authority whose complete reply fits the
+       limits and passes the checks; exactly the authorities up to it were asked. *)
+Theorem timed_sound : forall H l ctx q al t0 s te hits,
+  q_legacy q = false ->
+  tclient H l ctx q al t0 = (TRet (Ok s) te, hits) ->
+  exists k a, nth_error al k = Some a /\ s = r_stamp (a_reply a) /\ spec_good H l q a = true /\ map fst hits = upto 0 (S k).
+Proof. exact C10.TimingProofs.timed_sound. Qed.
+
+(* 26. A caller whose own deadline lies beyond one timeout per authority observes exactly what a caller without deadline
+       observes (so 22-23 hold for the server, whose requests carry a deadline, as well). *)
+Theorem patient_caller : forall H ct c q al t0,
+  t0 + zlen al * l_total (limits_of ct) < c ->
+  tclient H (limits_of ct) (Some c) q al t0 = tclient H (limits_of ct) None q al t0.
+Proof. exact C10.TimingProofs.src_patient_caller. Qed.
+
+(* 27. The timed client refines the untimed model of theorems 1-6 with "a complete reply arrived in time" as r_transport *)
+Theorem timed_refines_untimed : forall H ct q al t0,
+  exists t hits,
+    tclient H (limits_of ct) None q al t0 = (TRet (fst (ts_client H q (map (reply_at (limits_of ct)) al))) t, hits) /\
+    map fst hits = snd (ts_client H q (map (reply_at (limits_of ct)) al)) /\ t0 <= t.
+Proof. exact C10.TimingProofs.src_timed_refines_untimed. Qed.
+
+(* 28. Rate limiter in front of the client: a wait that would end after the caller's deadline fails at once and nobody is
+       asked; otherwise the client runs after the wait. *)
+Theorem limiter_spec : forall H l ctx q al wait,
+  limited_client H l ctx q al wait =
+  if wait_fails ctx wait then (TRet (Err E_LIMIT) 0, []) else tclient H l ctx q al (posd wait).
+Proof. exact C10.TimingProofs.limiter_spec. Qed.
+
+(* 29. What the model takes from the shape of the source: the loop ranges over all URLs, its only early exits are the two
+       translated ones, the request carries the caller's context, no other context is derived in Timestamp, the limiter
+       waits before calling, and the HTTP client literal sets no field the model does not know. *)
+Theorem timing_source_reviewed :
+  ts_loop_header = reviewed_loop_header /\ ts_loop_attempts = reviewed_loop_attempts /\ ts_loop_exits = reviewed_loop_exits /\
+  ts_context_derivations = [] /\ do_request_ctx = 0 /\ do_uses_configured_client = true /\
+  limiter_order = [0; 1] /\ limiter_passes_ctx_and_request = true /\
+  all_known known_client_fields client_fields = true /\ all_known known_transport_fields transport_fields = true /\
+  all_known known_dialer_fields dialer_fields = true.
+Proof. exact C10.TimingProofs.timing_source_reviewed. Qed.
+
 (* ---------------------------------------------------------------- where the code as it exists violates the statement *)
 Theorem legacy_no_failover_refuted :
   exists q rs good, q_legacy q = true /\
@@ -229,6 +331,16 @@ Proof. exact C10.Proofs.vsix_attaches_unverifiable_refuted. Qed.
 Theorem zero_time_judged_now_refuted :
   exists now s, accepted Hsym now s = true /\ spec_accept Hsym now s = false.
 Proof. exact C10.Proofs.zero_time_judged_now_refuted. Qed.
+
+(* sensitivity of 18-24: connect / handshake / header limits alone do not bound the body read *)
+Theorem header_only_limits_refuted :
+  exists q al good,
+    let l := mkLimits 0 SEC SEC SEC in
+    spec_timed (spec_good Hsym l q) al 0 = (Some good, [0; 1]) /\
+    tclient Hsym l None q al 0 = (THang, [(0, 0)]) /\
+    tclient Hsym l (Some (5 * SEC)) q al 0 = (TRet (Err E_TRANSPORT) (5 * SEC), [(0, 0)]) /\
+    tclient Hsym l None q [w_hang 0; w_answer 1 5000000] 0 = (TRet (Ok good) (SEC + 5000000), [(0, 0); (1, SEC)]).
+Proof. exact C10.TimingProofs.header_only_limits_refuted. Qed.
 
 (* ---------------------------------------------------------------- non-vacuity *)
 (* failover over three authorities: wrong nonce, rejection, then a genuine one *)
@@ -281,3 +393,35 @@ Example intermediate_and_pool_example :
   fst (verify_seq [] [c w_pool 0 [ica]; c w_pool 0 []; c (mkPool 78 [2]) 0 [ica]; c w_pool 1 [ica]; c w_pool 3 [ica]]) =
   [Ok tt; Err E_CHAIN; Err E_CHAIN; Err E_CHAIN; Ok tt].
 Proof. vm_compute. reflexivity. Qed.
+
+(* time: an authority that stalls after its headers, one that drips a byte every 300 ms, one that closes in mid-body and
+   one that answers after 400 ms, with timestamp.timeout = 1: asked at 0 s, 1 s, 2 s and 2.004 s; the fourth one's token
+   is returned at 2.404 s — and that is what the specification says *)
+Example timed_failover_example :
+  let al := [w_stall_after_headers 0; w_drip 1; w_torn 2; w_answer 3 400000000] in
+  tclient Hsym (limits_of 1) None w_req al 0 =
+    (TRet (Ok (w_stamp 3 (Some 7) 3)) 2404000000, [(0, 0); (1, 1000000000); (2, 2000000000); (3, 2004000000)]) /\
+  spec_timed (spec_good Hsym (limits_of 1) w_req) al 0 = (Some (w_stamp 3 (Some 7) 3), [0; 1; 2; 3]) /\
+  0 < 1.
+Proof. vm_compute. repeat split; reflexivity. Qed.
+(* all authorities hang in different ways: failure after one timeout each; a caller deadline in the middle of the second
+   attempt ends the call there *)
+Example timed_all_hang_example :
+  tclient Hsym (limits_of 1) None w_req [w_stall_after_headers 0; w_hang 1] 0 = (TRet (Err E_TRANSPORT) 2000000000, [(0, 0); (1, 1000000000)]) /\
+  tclient Hsym (limits_of 1) (Some 1500000000) w_req [w_stall_after_headers 0; w_hang 1; w_answer 2 5] 0 =
+    (TRet (Err E_TRANSPORT) 1500000000, [(0, 0); (1, 1000000000)]) /\
+  spec_good Hsym (limits_of 1) w_req (w_answer 2 5) = true /\ spec_good Hsym (limits_of 1) w_req (w_hang 1) = false.
+Proof. vm_compute. repeat split; reflexivity. Qed.
+(* an answer that would be complete after 1.2 s is not an answer under a 1 s timeout; after 0.9 s it is *)
+Example timed_boundary_example :
+  spec_good Hsym (limits_of 1) w_req (w_answer 0 1200000000) = false /\
+  spec_good Hsym (limits_of 1) w_req (w_answer 0 900000000) = true /\
+  answered (limits_of 1) (w_answer 0 1200000000) = false /\ answered (limits_of 1) (w_answer 0 900000000) = true.
+Proof. vm_compute. repeat split; reflexivity. Qed.
+(* timestamp.timeout unset or negative: the silent first authority is abandoned after the default 60 s, the second is used *)
+Example timeout_unset_fails_over :
+  let al := [w_hang 0; w_answer 1 5000000] in
+  tclient Hsym (limits_of 0) None w_req al 0 = (TRet (Ok (w_stamp 1 (Some 7) 3)) (60 * SEC + 5000000), [(0, 0); (1, 60 * SEC)]) /\
+  tclient Hsym (limits_of (-3)) None w_req al 0 = tclient Hsym (limits_of 0) None w_req al 0 /\
+  spec_timed (spec_good Hsym (limits_of 0) w_req) al 0 = (Some (w_stamp 1 (Some 7) 3), [0; 1]).
+Proof. exact C10.TimingProofs.timeout_unset_fails_over. Qed.
